@@ -111,6 +111,8 @@ pub struct GotMsg {
     pub properties: AmqpProperties,
     pub body: Vec<u8>,
     pub message_count: Option<u32>,
+    /// simulated time at which the client thread obtained it
+    pub recv_ns: u64,
 }
 
 impl GotMsg {
@@ -123,6 +125,7 @@ impl GotMsg {
             properties: d.properties.clone(),
             body: d.body.clone(),
             message_count: mc,
+            recv_ns: simrt::now_ns(),
         }
     }
 }
